@@ -15,13 +15,20 @@ from fractions import Fraction
 import py2v
 
 FAILURES = []
+FN_ORACLES = {}      # translated python function -> oracle names it takes as leading parameters
+ORACLE_ARITY = {}
+FN_ARITY = {}        # python function -> (number of parameters, number with defaults)
 
 
 class Ctx:
-    def __init__(self, modname, consts, known):
+    def __init__(self, modname, consts, known, oracles=(), emits=(), classes=()):
         self.modname = modname
         self.consts = consts      # module-level numeric constants name -> Fraction / tuple
         self.known = known        # python callee name -> coq name
+        self.oracles = list(oracles)   # callee names that become function parameters (uninterpreted)
+        self.emits = list(emits)       # callees whose call is the observable effect: call -> VTup [VEnum "emit"; args...]
+        self.classes = list(classes)   # class names usable in `x.__class__ is C`
+        self.used_oracles = []
         self.tmp = 0
 
     def fresh(self):
@@ -66,6 +73,8 @@ def expr(node, cx, env):
             return env[node.id]
         if node.id in cx.consts and isinstance(cx.consts[node.id], Fraction):
             return q_lit(cx.consts[node.id])
+        if node.id in cx.classes:
+            return '(VEnum "%s")' % node.id
         raise py2v.Untranslatable("unbound name %s" % node.id)
     if isinstance(node, ast.Attribute):
         d = py2v.dotted(node)
@@ -75,7 +84,13 @@ def expr(node, cx, env):
             return '(VEnum "%s")' % node.attr
         if d and "." in d and d.rsplit(".", 1)[0].endswith("BoxIntersectionType"):
             return '(VEnum "%s")' % node.attr
-        raise py2v.Untranslatable("attribute %s" % d)
+        # attribute of an object-valued expression: x.attr, x.a.b
+        base = node.value
+        try:
+            b = expr(base, cx, env)
+        except py2v.Untranslatable:
+            raise py2v.Untranslatable("attribute %s" % d)
+        return '(vattr %s "%s")' % (b, node.attr)
     if isinstance(node, ast.UnaryOp):
         x = expr(node.operand, cx, env)
         if isinstance(node.op, ast.USub):
@@ -119,6 +134,8 @@ def expr(node, cx, env):
                 parts.append("(veq %s %s)" % (a, b))
             elif isinstance(op, ast.NotEq):
                 parts.append("(vne %s %s)" % (a, b))
+            elif isinstance(op, ast.Is) and isinstance(node.comparators[i], ast.Name) and node.comparators[i].id in cx.classes:
+                parts.append('(veq %s (VEnum "%s"))' % (a, node.comparators[i].id))
             elif isinstance(op, ast.Is) and b == "VNone":
                 parts.append("(veq %s VNone)" % a)
             elif isinstance(op, ast.IsNot) and b == "VNone":
@@ -138,17 +155,28 @@ def expr(node, cx, env):
         sl = node.slice
         if isinstance(sl, ast.Constant) and isinstance(sl.value, int) and sl.value >= 0:
             return "(vidx %s %d)" % (base, sl.value)
+        if isinstance(sl, ast.UnaryOp) and isinstance(sl.op, ast.USub) and isinstance(sl.operand, ast.Constant) and sl.operand.value == 1:
+            return "(vidx_last %s)" % base
         if isinstance(sl, ast.Tuple) and len(sl.elts) == 2:
             i, j = sl.elts
             if isinstance(i, ast.Constant) and isinstance(j, ast.Constant) and isinstance(i.value, int) and isinstance(j.value, int) and i.value >= 0 and j.value >= 0:
                 return "(vidx2 %s %d %d)" % (base, i.value, j.value)
             if isinstance(i, ast.Slice) and i.lower is None and i.upper is None and i.step is None and isinstance(j, ast.Constant) and isinstance(j.value, int) and j.value >= 0:
                 return "(vcol %s %d)" % (base, j.value)
+            if (isinstance(i, ast.Slice) and i.lower is None and i.upper is None and i.step is None and isinstance(j, ast.UnaryOp)
+                    and isinstance(j.op, ast.USub) and isinstance(j.operand, ast.Constant) and j.operand.value == 1):
+                return "(vcol_last %s)" % base
         raise py2v.Untranslatable("subscript form")
     if isinstance(node, ast.Call):
+        if isinstance(node.func, ast.Attribute) and node.func.attr in ("reshape", "ravel"):
+            return expr(node.func.value, cx, env)      # shape-only operations
         fn = callee_name(node.func)
         args = node.args
         kw = {k.arg: k.value for k in node.keywords}
+        if fn == "np.empty" and args and isinstance(args[0], ast.Tuple) and len(args[0].elts) == 2:
+            r, c = args[0].elts
+            if isinstance(r, ast.Constant) and isinstance(c, ast.Constant) and c.value == 0:
+                return "(VTup [%s])" % "; ".join(["(VTup [])"] * r.value)
         if fn in ("abs", "np.abs", "numpy.abs") and len(args) == 1:
             return "(vabs %s)" % expr(args[0], cx, env)
         if fn == "min" and len(args) == 2:
@@ -166,8 +194,25 @@ def expr(node, cx, env):
         if fn == "float" and len(args) == 1:
             return expr(args[0], cx, env)
         short = fn.split(".")[-1]
+        if short in cx.emits and not kw:
+            return '(VTup [(VEnum "emit_%s"); %s])' % (short, "; ".join(expr(a, cx, env) for a in args))
+        if short in cx.oracles and not kw:
+            if short not in cx.used_oracles:
+                cx.used_oracles.append(short)
+            return "(o_%s %s)" % (short, " ".join(expr(a, cx, env) for a in args))
         if short in cx.known and not kw:
-            return "(%s %s)" % (cx.known[short], " ".join(expr(a, cx, env) for a in args))
+            extra = []
+            for o in FN_ORACLES.get(short, []):
+                if o not in cx.used_oracles:
+                    cx.used_oracles.append(o)
+                extra.append("o_" + o)
+            npar, ndef = FN_ARITY.get(short, (len(args), 0))
+            target = cx.known[short]
+            if ndef and len(args) == npar - ndef:
+                target += "_default"
+            elif len(args) != npar:
+                raise py2v.Untranslatable("arity of call to %s" % short)
+            return "(%s %s)" % (target, " ".join(extra + [expr(a, cx, env) for a in args]))
         raise py2v.Untranslatable("call to %s" % fn)
     raise py2v.Untranslatable("expression " + type(node).__name__)
 
@@ -228,10 +273,21 @@ def stmts(body, cx, env, depth=0):
         return "(if truth %s then\n%s\nelse\n%s)" % (test, a, b)
     if isinstance(st, ast.Pass):
         return stmts(rest, cx, env, depth)
+    if isinstance(st, ast.Expr) and isinstance(st.value, ast.Call):
+        short = callee_name(st.value.func).split(".")[-1]
+        if short in cx.emits:
+            # the observable effect of the function: collected into a list with whatever follows
+            tail = stmts(rest, cx, env, depth + 1)
+            return "(vcons %s %s)" % (expr(st.value, cx, env), tail)
+        if short in cx.known:
+            # a call made for its effects only: its emissions come first
+            tail = stmts(rest, cx, env, depth + 1)
+            return "(vappend %s %s)" % (expr(st.value, cx, env), tail)
     raise py2v.Untranslatable("statement " + type(st).__name__)
 
 
 def translate_function(fn, cx, coqname, defaults=None):
+    cx.used_oracles = []
     args = [a.arg for a in fn.args.args]
     env = {}
     params = []
@@ -241,7 +297,12 @@ def translate_function(fn, cx, coqname, defaults=None):
         env[a] = nm
         params.append(nm)
     body = stmts(list(fn.body), cx, env)
-    text = "Definition %s (%s : val) : val :=\n%s.\n" % (coqname, " ".join(params), body)
+    # arities of the oracles actually used
+    opar = ""
+    for o in cx.used_oracles:
+        ar = ORACLE_ARITY[o]
+        opar += " (o_%s : %sval)" % (o, "val -> " * ar)
+    text = "Definition %s%s (%s : val) : val :=\n%s.\n" % (coqname, opar, " ".join(params), body)
     # default arguments become a second definition with the defaults filled in
     if ndef:
         dvals = []
@@ -258,24 +319,35 @@ HEADER = ("(* GENERATED by translate/py2v_more.py from %s -- do not edit; regene
 
 # (source file, output file, [(python function, coq name)], imports of earlier generated files)
 PLAN = [
-    ("hazmat/helpers.py", "PyFnHelpers.v",
-     ["in_interval", "cross_product", "wiggle_interval", "solve2x2", "bbox", "contains_nd"], []),
-    ("hazmat/geometric_intersection.py", "PyFnGeometric.v",
-     ["bbox_intersect", "segment_intersection", "parallel_lines_parameters", "line_line_collide", "bbox_line_intersect"],
-     ["PyFnHelpers"]),
-    ("hazmat/triangle_helpers.py", "PyFnTriangle.v", ["two_by_two_det"], []),
-    ("hazmat/triangle_intersection.py", "PyFnTriangleIntersection.v", ["newton_refine_solve"], []),
+    {"src": "hazmat/helpers.py", "out": "PyFnHelpers.v",
+     "fns": ["in_interval", "cross_product", "wiggle_interval", "solve2x2", "bbox", "contains_nd"], "imports": []},
+    {"src": "hazmat/geometric_intersection.py", "out": "PyFnGeometric.v",
+     "fns": ["bbox_intersect", "segment_intersection", "parallel_lines_parameters", "line_line_collide", "bbox_line_intersect"],
+     "imports": ["PyFnHelpers"]},
+    {"src": "hazmat/triangle_helpers.py", "out": "PyFnTriangle.v", "fns": ["two_by_two_det"], "imports": []},
+    {"src": "hazmat/triangle_intersection.py", "out": "PyFnTriangleIntersection.v", "fns": ["newton_refine_solve"], "imports": []},
+    # the pieces of the geometric pipeline through which every reported parameter pair has to pass.
+    # Array-level helpers are uninterpreted ORACLES (function parameters); the call that records an
+    # intersection is the observable effect (emit).
+    {"src": "hazmat/geometric_intersection.py", "out": "PyFnIntersect.v",
+     "fns": ["check_lines", "coincident_parameters", "endpoint_check", "tangent_bbox_intersection", "from_linearized"],
+     "imports": ["PyFnHelpers", "PyFnGeometric"],
+     "oracles": {"make_same_degree": 2, "locate_point": 2, "specialize_curve": 3, "vector_close": 2,
+                 "convex_hull_collide": 2, "full_newton": 4},
+     "emits": ["add_intersection"], "classes": ["Linearization"]},
 ]
 
 
 def generate():
     out = {}
     known = {}
-    for relpath, outname, names, imports in PLAN:
+    for ent in PLAN:
+        relpath, outname, names, imports = ent["src"], ent["out"], ent["fns"], ent["imports"]
         try:
             tree = py2v.parse(relpath)
             consts, _ = py2v.module_constants(tree)
-            cx = Ctx(outname, consts, known)
+            cx = Ctx(outname, consts, known, oracles=ent.get("oracles", {}), emits=ent.get("emits", ()), classes=ent.get("classes", ()))
+            ORACLE_ARITY.update(ent.get("oracles", {}))
             text = [HEADER % relpath]
             for imp in imports:
                 text.append("From BZ Require Import Gen.%s.\n" % imp)
@@ -285,6 +357,8 @@ def generate():
                     coqname = "py_" + name
                     text.append("\n" + translate_function(fn, cx, coqname))
                     known[name] = coqname
+                    FN_ORACLES[name] = list(cx.used_oracles)
+                    FN_ARITY[name] = (len(fn.args.args), len(fn.args.defaults))
                 except (py2v.Untranslatable, KeyError, IndexError, AttributeError) as exc:
                     msg = repr(exc).replace("*)", "* )").replace("(*", "( *")
                     text.append("\n(* %s: UNTRANSLATABLE %s *)\nUntranslatable_%s.\n" % (name, msg, name))
